@@ -40,7 +40,10 @@ INPUTS = ["null", "true", "false", "0", "-1", "1.5", '""', '"a"', '"a,bé"', "[]
           '[[1],{"a":2},"x",null]', "{}", '{"a":1,"b":[1,2]}', '{"a":{"b":null}}', '["b","a","a"]', '[{"a":2},{"a":1}]']
 
 # the quick tier runs P(2) on this subset (P(1) always sees every input)
-QUICK_INPUTS = ["null", "true", "1.5", '""', '"a,bé"', "[1,2,3]", "{}", '{"a":1,"b":[1,2]}']
+QUICK_INPUTS = ["null", '"a,bé"', "[1,2,3]", '{"a":1,"b":[1,2]}']
+THOROUGH_PIPE_INPUTS = ["null", "true", "0", "1.5", '""', '"a,bé"', "[]", "[1,2,3]", '[[1],{"a":2},"x",null]', "{}",
+                        '{"a":1,"b":[1,2]}', '{"a":{"b":null}}']
+QUICK_CTX_INPUTS = ["null", "1.5", '"a,bé"', "[1,2,3]", '{"a":1,"b":[1,2]}']
 
 NULLARY = ("type length utf8bytelength keys keys_unsorted empty not add any all flatten sort reverse unique min max "
            "floor ceil round sqrt fabs trunc log exp exp2 log2 log10 sin cos tan asin acos atan sinh cosh tanh "
@@ -73,7 +76,7 @@ UNARY = [
     "[limit(3;recurse)]", "until(true;.)", "[while(false;.)]", "ascii_downcase|ascii_upcase", '@text "\\(.)"',
     "[.[]|tostring]", "[.[]|tojson]", "[.[]|type]", "map(select(.))", "[.[]|numbers]", "getpath([0])", 'getpath(["a",0])',
     "error({})", "(1,2)|.+1", "[(1,2)+(10,20)]", "[.[]|.+1]?", '.["a","b"]?', ".[0,1]?", "..|numbers", "[..|strings]",
-    "keys|length", "length|tostring", "trunc|tostring", 'ltrimstr("a")|rtrimstr("a")', "tostream|tojson",
+    "keys|length", "length|tostring", 'ltrimstr("a")|rtrimstr("a")', "tostream|tojson",
     "getpath(1)", "setpath(1;1)", "delpaths(1)", "has(null)", "in({})", "in([])", 'inside("abc")', 'contains("a")',
     "contains([1])", "contains({a:1})", "index(1)", "index([1])", "rindex(1)", "join(1)", "join(null)", "split(1)",
     'flatten("a")', "range(-1)", "range(0;1;0)", "range(0;3;2)", 'range("a")', "nth(-1)", "limit(-1;.[])", "first(.[]?)",
@@ -105,14 +108,10 @@ CONTEXTS = ["[%s]", "(%s)?", "try (%s) catch .", "[.[]? | %s]", "first(%s)", "[l
 # second stages of quick-tier pipes (every base term is a first stage)
 CORE_B = ["type", "length", "keys", "not", "add", "sort", "reverse", "unique", "tojson", "tostring", "tonumber", "first", "last",
           ".[]", ".[]?", ".a", ".[0]", ".[1:]", "to_entries", "from_entries", "tostream", "paths", "floor", "explode", "flatten",
-          "min", "any", "all", "transpose", "ascii_downcase", "@csv", "@sh", "@json", "@text", ". + 1", '. + "a"', ". + [1]",
-          ". + null", ". - 1", ". * 2", ". / 2", ". % 2", ". < 1", ". == null", 'has("a")', "has(0)", "map(.)", "select(.)",
-          'split(",")', 'join(",")', 'index("a")', 'indices("a")', "contains(.)", 'ltrimstr("a")', 'startswith("a")',
-          "del(.a)", "del(.[0])", ".a = 1", ".[0] = 1", ".a |= 2", ".a += 1", 'getpath(["a"])', 'setpath(["a"];1)',
-          "with_entries(.)", "group_by(.)", "sort_by(.)", "min_by(.)", "limit(1;.[])", "first(.[])", "range(3)", "error",
-          "try error catch .", "if . then 1 else 2 end", ". as $x | $x", "reduce .[] as $x (0; . + $x)", "{a: .}", "[.[]?]",
-          '"a\\(.)"', "-(.)", "walk(.)", "tojson | fromjson", "utf8bytelength", "values", "scalars", "recurse", "..", "isnan",
-          "combinations", "implode", "@base64", "@uri", "@html", "sqrt", "bsearch(1)", "path(..)", "[paths]", "[..]"]
+          "min", "any", "transpose", "@csv", "@json", ". + 1", '. + "a"', ". + null", ". - 1", ". * 2", ". / 2", ". < 1", ". == null",
+          'has("a")', "map(.)", "select(.)", 'split(",")', 'join(",")', 'index("a")', "contains(.)", "del(.a)", ".a = 1", ".a |= 2",
+          "with_entries(.)", "error", "try error catch .", "if . then 1 else 2 end", "{a: .}", '"a\\(.)"', "-(.)", "combinations",
+          "implode", "walk(.)", ".."]
 
 LITS = ["null", "false", "true", "0", "1", "-1", '""', '"a"', '"ab"', "[]", "[1]", "[1,2]", "{}", '{"a":1}', '{"a":{"b":1}}']
 ARITH = ["+", "-", "*", "/", "%"]
@@ -272,16 +271,30 @@ class Witness:
             return None
         return res
 
-    def ensure(self, progs, inputs, nthreads=8, chunk=300):
-        """Make sure every (prog, input) has an answer; runs jq 1.6 only for the missing programs."""
+    def ensure(self, progs, inputs, nthreads=8, chunk=300, crashes=None):
+        """Make sure every (prog, input) has an answer; runs jq 1.6 only for the missing programs.
+        `crashes(prog, input)` -> True where jq 1.6 is known to abort (assertion): those pairs are not run."""
         inputs = list(inputs)
         missing = [p for p in progs if p not in self.data or any(i not in self.data[p] for i in inputs)]
         missing = list(dict.fromkeys(missing))
         if not missing:
             return 0
-        chunks = [missing[i:i + chunk] for i in range(0, len(missing), chunk)]
+        groups = {}
+        for p in missing:
+            safe = tuple(i for i in inputs if not (crashes and crashes(p, i)))
+            if len(safe) != len(inputs):
+                d = self.data.setdefault(p, {})
+                for i in inputs:
+                    if i not in safe:
+                        d[i] = ("failed", "jq 1.6 aborts here (assertion), not run")
+            if safe:
+                groups.setdefault(safe, []).append(p)
+        work = []
+        for safe, ps in groups.items():
+            for i in range(0, len(ps), chunk):
+                work.append((ps[i:i + chunk], list(safe)))
         with ThreadPoolExecutor(nthreads) as ex:
-            results = list(ex.map(lambda c: self._chunk(c, inputs), chunks))
+            results = list(ex.map(lambda w: self._chunk(w[0], w[1]), work))
         for r in results:
             for p, d in r.items():
                 self.data.setdefault(p, {}).update(d)
@@ -330,7 +343,7 @@ def model_outcome(prog, inp_text, compat16):
         else:
             jq171.check_output(e)
             err = ["v", jq171.dump(e)]
-        return ("ok", lines, err)
+        return ("ok", lines, err, ("scalar-identity",) if jq171.interp(compat16).scalar_identity else ())
     except Unsupported as u:
         if compat16 and str(u).startswith("NOCOMPILE16:"):
             return ("nocompile",)       # documented change: the construct does not compile in 1.6
@@ -423,13 +436,14 @@ def programs(tier):
             for op in ARITH + CMP:
                 out.append(("matrix", "%s %s %s" % (a, op, b), ["null"], None))
     second = CORE_B if tier == "quick" else B
-    qinputs = QUICK_INPUTS if tier == "quick" else INPUTS
+    qinputs = QUICK_INPUTS if tier == "quick" else THOROUGH_PIPE_INPUTS
     for a in B:
         for b in second:
             out.append(("P2-pipe", "%s | %s" % (a, b), qinputs, (a, b)))
+    cinputs = QUICK_CTX_INPUTS if tier == "quick" else INPUTS
     for a in B:
         for c in CONTEXTS:
-            out.append(("P2-context", c.replace("%s", a), qinputs, (a, c)))
+            out.append(("P2-context", c.replace("%s", a), cinputs, (a, c)))
     seen = set()
     res = []
     for t in out:
@@ -511,8 +525,8 @@ _LOC = _re.compile(r"^jq: error \(at [^)]*\)")
 
 
 def expected_cli(m):
-    """model outcome ("ok", lines, err) -> (values list, status, message suffix after the location prefix)"""
-    _, lines, e = m
+    """model outcome ("ok", lines, err, flags) -> (values list, status, message suffix after the location prefix)"""
+    lines, e = m[1], m[2]
     if e is None:
         return lines, "0", ""
     if e[0] == "s":
@@ -539,14 +553,39 @@ def observe(res):
     return lines, code, msg, errt
 
 
-def same_values(a_lines, b_lines):
+TRANSCENDENTAL = ("log", "exp", "sin", "cos", "tan", "asin", "acos", "atan", "sinh", "cosh", "tanh", "pow", "atan2", "exp2", "log2", "log10")
+_WORD = _re.compile(r"[a-z0-9_]+")
+
+
+def uses_libm(prog):
+    """Does the program call a transcendental libm function?  Their last digits depend on the platform's libm, which the
+    recorded jq-1.7.1 traces do not pin (the goldens round to 6 digits): such outputs are compared to 4 ulp."""
+    return any(w in TRANSCENDENTAL for w in _WORD.findall(prog))
+
+
+def _close(x, y, tol):
+    if isinstance(x, bool) or isinstance(y, bool) or x is None or y is None:
+        return x is y or x == y and type(x) == type(y)
+    if isinstance(x, (int, float)) and isinstance(y, (int, float)):
+        if x == y:
+            return True
+        return tol and abs(x - y) <= 8.9e-16 * max(abs(x), abs(y))
+    if isinstance(x, list) and isinstance(y, list):
+        return len(x) == len(y) and all(_close(a, b, tol) for a, b in zip(x, y))
+    if isinstance(x, dict) and isinstance(y, dict):
+        return x.keys() == y.keys() and all(_close(x[k], y[k], tol) for k in x)
+    return x == y and type(x) == type(y)
+
+
+def same_values(a_lines, b_lines, tol=False):
+    """Same sequence of JSON values (objects unordered, numbers by value; `tol`: numbers to 4 ulp)."""
     if a_lines == b_lines:
         return True
     if b_lines is None or len(a_lines) != len(b_lines):
         return False
     try:
         for x, y in zip(a_lines, b_lines):
-            if x != y and json.loads(x) != json.loads(y):
+            if x != y and not _close(json.loads(x), json.loads(y), tol):
                 return False
     except ValueError:
         return False
@@ -571,7 +610,7 @@ def kind_class(text):
     return "empty-object" if not v else "object"
 
 
-def diff_kind(exp, obs):
+def diff_kind(exp, obs, tol=False):
     el, es, em = exp
     ol, oc, om, _ = obs
     if batch.crashed(oc) or oc not in ("0", "5"):
@@ -580,7 +619,7 @@ def diff_kind(exp, obs):
         return "no-error(jq:error)"
     if es == "0" and oc == "5":
         return "error(jq:value)"
-    if not same_values(el, ol):
+    if not same_values(el, ol, tol):
         if es == "5":
             return "outputs-before-error"
         return "value"
@@ -620,19 +659,87 @@ def term_key(p):
 
 # ------------------------------------------------------------------------------- judging one pair --
 
-_SHAPE_S = _re.compile(r'"(?:[^"\\]|\\.)*"')
-_SHAPE_V = _re.compile(r"\([^)]*\)")
-_SHAPE_T = _re.compile(r"\b(null|boolean|number|string|array|object)\b")
-_SHAPE_N = _re.compile(r"-?\d+(\.\d+)?")
 
 
-def shape(msg):
-    """A message with every embedded value / type name / number blanked: names the raise site, not the input."""
-    m = _SHAPE_S.sub("<s>", msg or "")
-    m = _SHAPE_V.sub("(<v>)", m)
-    m = _SHAPE_T.sub("<t>", m)
-    m = _SHAPE_N.sub("<n>", m)
-    return m.strip(": ")[:64]
+def sentence(msg):
+    """An error message with every embedded JSON value blanked (<v>) and every type name blanked (<t>): it names the
+    sentence (hence the raise site), never the input."""
+    msg = (msg or "").strip()
+    if msg.startswith(": "):
+        msg = msg[2:]
+    out = []
+    i, n = 0, len(msg)
+    while i < n:
+        ch = msg[i]
+        if ch == '"':
+            j = i + 1
+            while j < n and msg[j] != '"':
+                if msg.startswith("...)", j) or (msg.startswith("...", j) and j + 3 == n):
+                    j += 2
+                    break
+                j += 2 if msg[j] == "\\" else 1
+            i = min(n, j + 1)
+            out.append("<v>")
+        elif ch in "[{":
+            depth, j = 0, i
+            while j < n:
+                if msg[j] == '"':
+                    j += 1
+                    while j < n and msg[j] != '"' and not msg.startswith("...)", j) and not (msg.startswith("...", j) and j + 3 == n):
+                        j += 2 if msg[j] == "\\" else 1
+                    if j < n and msg[j] != '"':
+                        j += 3
+                        break
+                elif msg[j] in "[{":
+                    depth += 1
+                elif msg[j] in "]}":
+                    depth -= 1
+                    if depth == 0:
+                        j += 1
+                        break
+                elif msg.startswith("...", j):
+                    j += 3
+                    break
+                j += 1
+            i = j
+            out.append("<v>")
+        elif ch.isdigit() or (ch == "-" and i + 1 < n and msg[i + 1].isdigit()):
+            j = i + 1
+            while j < n and (msg[j].isdigit() or msg[j] in ".eE+-"):
+                j += 1
+            i = j
+            out.append("<v>")
+        else:
+            m = _re.match(r"(null|boolean|number|string|array|object|true|false)\b", msg[i:])
+            if m and (i == 0 or not msg[i - 1].isalnum()):
+                out.append("<v>" if m.group(1) in ("true", "false") else "<t>")
+                i += len(m.group(1))
+            else:
+                out.append(ch)
+                i += 1
+    s = "".join(out).replace("<v>...", "<v>").replace("<t> (<t>)", "<t> (<v>)")
+    return _re.sub(r"\s+", " ", s)[:90]
+
+
+def model_both(prog, inp):
+    """(1.7.1-mode outcome, compat16-mode outcome).  The second evaluation is skipped when the first never touched
+    anything on the documented change list (the interpreter records that)."""
+    m = model_outcome(prog, inp, False)
+    if m[0] == "ok" and not jq171.interp(False).sens:
+        return m, m
+    if m[0] == "unsupported":
+        return m, None
+    return m, model_outcome(prog, inp, True)
+
+
+_SD_CACHE = {}
+
+
+def static_divergence_cached(prog):
+    r = _SD_CACHE.get(prog, 0)
+    if r == 0:
+        r = _SD_CACHE[prog] = static_divergence(prog)
+    return r
 
 
 class Judge:
@@ -641,23 +748,22 @@ class Judge:
     def __init__(self, witness):
         self.W = witness
 
-    def judge(self, prog, inp, res):
+    def judge(self, prog, inp, res, both=None):
         """-> (status, info).  status: outside | excluded | agree | agree-undet | fail | fail-undet"""
-        m = model_outcome(prog, inp, False)
+        m, m16 = both if both is not None else model_both(prog, inp)
         if m[0] == "unsupported":
             why = m[1]
             if why.startswith("DIVERGENCE:"):
                 return "excluded", why[len("DIVERGENCE:"):]
             return "outside", why.split("(")[0].strip()[:48]
-        sd = static_divergence(prog)
+        sd = static_divergence_cached(prog)
         if sd:
             return "excluded", sd
         if m[2] and m[2][0] == "s" and m[2][1].startswith("Invalid path expression near attempt to"):
             return "excluded", "path-near-attempt-wording"
         exp = expected_cli(m)
         obs = observe(res)
-        same = same_values(exp[0], obs[0]) and exp[1] == obs[1] and exp[2] == obs[2]
-        m16 = model_outcome(prog, inp, True)
+        same = same_values(exp[0], obs[0], uses_libm(prog)) and exp[1] == obs[1] and exp[2] == obs[2]
         w = self.W.get(prog, inp)
         if m16[0] == "nocompile":
             det = w is not None and w[0] == "nocompile"
@@ -668,35 +774,76 @@ class Judge:
         return ("fail" if det else "fail-undet"), (m, exp, obs, w, m16)
 
 
-def base_signature(prog_for_key, on_text, exp, obs, prog_full):
-    """Signature of a disagreement attributed to `prog_for_key` applied to the value `on_text`."""
-    dk = diff_kind(exp, obs)
-    st, ast = jq171.parse_cached(prog_full)
-    has_fmt_string = False
+LIBM1 = {"floor", "ceil", "round", "sqrt", "fabs", "trunc", "log", "log2", "log10", "exp", "exp2", "sin", "cos", "tan", "asin", "acos",
+         "atan", "sinh", "cosh", "tanh"}
+
+
+def family(tk):
+    """Collapse builtins that share one implementation site (the unary / binary libm wrappers) into one name."""
+    parts = []
+    for p in tk.split("+"):
+        nm = p.split("/")[0]
+        if nm in LIBM1 and p.endswith("/0"):
+            p = "libm-unary"
+        elif nm in ("pow", "atan2") and p.endswith("/2"):
+            p = "libm-binary"
+        if p not in parts:
+            parts.append(p)
+    return "+".join(parts)
+
+
+def _has_node(prog, pred):
+    st, ast = jq171.parse_cached(prog)
+    hit = []
     if st == "ok":
-        def v(n):
-            nonlocal has_fmt_string
-            if n and n[0] == "str" and n[1]:
-                has_fmt_string = True
-        _walk(ast, v)
+        _walk(ast, lambda n: hit.append(1) if n and pred(n) else None)
+    return bool(hit)
+
+
+def base_signature(prog_for_key, on_text, exp, obs, prog_full, flags=(), ctx=None):
+    """Signature of a disagreement attributed to `prog_for_key` applied to the value `on_text`: the raise site / construct
+    and the kind of disagreement - one root cause, one signature; never the input itself."""
+    tol = uses_libm(prog_full)
+    dk = diff_kind(exp, obs, tol)
     raw = obs[3] or ""
-    if obs[1] not in ("0", "5") and ("compile error" in raw or "parse error" in raw):
-        return "parse:" + ("format-string-interpolation" if has_fmt_string else term_key(prog_for_key))
-    tk = term_key(prog_for_key)
+    if dk.startswith("status-"):
+        if "compile error" in raw or "parse error" in raw:
+            if _has_node(prog_full, lambda n: n[0] == "str" and n[1]):
+                return "parse:format-string-interpolation"
+            return "parse:" + term_key(prog_for_key)
+        return "%s:%s" % (dk, term_key(prog_for_key))
+    if _has_node(prog_for_key, lambda n: n[0] == "neg" and isinstance(n[1], tuple) and n[1][0] == "binop" and n[1][1] in "*/%"):
+        return "unary-minus:binds-tighter-than-multiplication"
+    if "scalar-identity" in flags and (obs[2] or "").startswith(": Invalid path expression"):
+        return "path:jq-accepts-null-or-boolean-result-identical-to-input"
+    tk = family(term_key(prog_for_key))
+    where = (ctx + ":" if ctx else "")
+    if (obs[2] or "").startswith(": Invalid path expression with result") and not exp[2].startswith(": Invalid path expression"):
+        # jq resolves the filter as a path (or fails later, inside the write); succinctly's path resolver has no arm for it
+        return "path-resolver-refuses:%s" % tk
     if dk == "message":
-        return "%s:message:%s" % (tk, shape(obs[2]))
+        se, so = sentence(exp[2]), sentence(obs[2])
+        if se == so:
+            a, b = exp[2], obs[2]
+            how = "truncation-width" if (a.rstrip(".").startswith(b.rstrip(".")) or b.rstrip(".").startswith(a.rstrip("."))) else "embedded-value"
+            return "message:%s:%s" % (how, so)
+        return "message:%s:[succinctly] %s" % (tk, so)
     if dk == "error(jq:value)":
-        return "%s:error-where-jq-answers:%s" % (tk, shape(obs[2]))
+        return "%s%s:errors-where-jq-answers:%s" % (where, tk, sentence(obs[2]))
     if dk == "no-error(jq:error)":
-        return "%s:answers-where-jq-errors:%s" % (tk, shape(exp[2]))
+        return "%s%s:answers-where-jq-errors:%s" % (where, tk, sentence(exp[2]))
     if dk in ("value", "outputs-before-error"):
-        return "%s:%s:on-%s" % (tk, dk, kind_class(on_text) if on_text is not None else "stream")
-    return "%s:%s" % (tk, dk)
+        if any("e+308" in l for l in exp[0]) or any(l == "null" for l in exp[0]) and "nan" in prog_full:
+            return "%s%s:%s:nonfinite-number" % (where, tk, dk)
+        if same_values(exp[0], obs[0], True):
+            return "%s%s:float-result-off-in-last-digits" % (where, tk)
+        return "%s%s:%s:on-%s" % (where, tk, dk, kind_class(on_text) if on_text is not None else "stream")
+    return "%s%s:%s" % (where, tk, dk)
 
 
 # ------------------------------------------------------------------------------- shard worker --
 
-G = {}   # set in the parent before forking: witness, p1 verdicts, keep-set
+G = {}   # set in the parent before forking: witness, P(1) verdicts, keep-set
 
 
 def _job(prog, inp):
@@ -720,6 +867,17 @@ def _children(inp_text):
 ELEMENTWISE = ("map(%s)", "[.[]? | %s]")
 
 
+def composite_signature(space, prog, inp, parts, exp, obs, flags):
+    """Signature of a disagreement that no sub-program shows on its own."""
+    if space == "P2-pipe":
+        sig = base_signature(parts[1], None, exp, obs, prog, flags, ctx="after " + term_key(parts[0]))
+    elif space == "P2-context":
+        sig = base_signature(parts[0], inp, exp, obs, prog, flags, ctx="in " + parts[1].replace("%s", "_").replace(" ", ""))
+    else:
+        sig = base_signature(prog, inp, exp, obs, prog, flags)
+    return sig
+
+
 def _example(prog, inp, info, basis_prog, basis_inp, sig):
     m, exp, obs, w, m16 = info
     return {"kind": "cli", "program": prog, "input": inp, "argv": ["jq", "-c", cli_prog(prog)], "stdin_hex": (inp + "\n").encode("utf8").hex(),
@@ -727,6 +885,13 @@ def _example(prog, inp, info, basis_prog, basis_inp, sig):
             "succinctly": {"stdout": obs[0], "status": obs[1], "message": obs[2]},
             "jq16": (list(w) if w else None), "jq16_model": list(m16),
             "basis_program": basis_prog, "basis_input": basis_inp, "signature_hint": sig}
+
+
+def _example_full(space, parts, *a):
+    ex = _example(*a)
+    ex["space"] = space
+    ex["parts"] = list(parts) if parts else None
+    return ex
 
 
 def process_shard(arg):
@@ -751,7 +916,26 @@ def process_shard(arg):
     progs = list(dict.fromkeys(p for (_, p, _, _) in items))
     before = W.spawns
     fresh_before = W.fresh_pairs
-    W.ensure(progs, INPUTS if any(len(i[2]) > 1 for i in items) else ["null"], nthreads=G.get("wit_threads", 1))
+    boths = {}
+    for (space, prog, inp, parts) in meta:
+        boths[(prog, inp)] = model_both(prog, inp)
+
+    def crashes(p, i):
+        b = boths.get((p, i))
+        o = b[1] if b is not None else model_outcome(p, i, True)
+        return o is not None and o[0] == "unsupported" and "asserts in 1.6" in o[1]
+    nc = G.get("nocompile_terms") or ()
+    for (space, prog, inputs, parts) in items:
+        if parts is not None and (parts[0] in nc or (space == "P2-pipe" and parts[1] in nc)):
+            d = W.data.setdefault(prog, {})
+            for i in inputs:
+                d.setdefault(i, ("nocompile",))
+    # programs of one shard share their input list within a sub-space: one bulk jq 1.6 run per distinct input list
+    by_inputs = {}
+    for (space, prog, inputs, parts) in items:
+        by_inputs.setdefault(tuple(inputs), []).append(prog)
+    for inputs, ps in by_inputs.items():
+        W.ensure(list(dict.fromkeys(ps)), list(inputs), nthreads=G.get("wit_threads", 1), chunk=400, crashes=crashes)
     if keep is not None:
         for p in progs:
             if p in keep and p in W.data:
@@ -760,7 +944,7 @@ def process_shard(arg):
         out["_jobs"], out["_res"] = jobs, res
     pending = []      # failing P2 pairs that need sub-pair attribution
     for (space, prog, inp, parts), r in zip(meta, res):
-        status, info = J.judge(prog, inp, r)
+        status, info = J.judge(prog, inp, r, boths[(prog, inp)])
         c = out["counts"].setdefault(space, {})
         bump(c, status)
         if status == "outside":
@@ -768,8 +952,6 @@ def process_shard(arg):
             continue
         if status == "excluded":
             bump(out["excluded"], info)
-            # informative only: does the documented divergence still diverge?
-            m = model_outcome(prog, inp, False)
             continue
         m = info[0]
         out["distinct"].add(hash((tuple(m[1]), tuple(m[2]) if m[2] else None)))
@@ -809,7 +991,8 @@ def process_shard(arg):
         sub_inputs = list(by_input.keys())
         W2 = Witness.__new__(Witness)
         W2.version, W2.data, W2.loaded, W2.fresh_pairs, W2.spawns, W2.dirty = W.version, {}, 0, 0, 0, False
-        W2.ensure(sub_progs, sub_inputs, nthreads=1)
+        W2.ensure(sub_progs, sub_inputs, nthreads=1,
+                  crashes=lambda p, i: (lambda o: o[0] == "unsupported" and "asserts in 1.6" in o[1])(model_outcome(p, i, True)))
         out["spawns"] += W2.spawns
         J2 = Judge(W2)
         for (p, v), rr in zip(keys, r2):
@@ -826,26 +1009,15 @@ def process_shard(arg):
             for s in plan[1]:
                 st2, info2 = need[s]
                 if st2 in ("fail", "fail-undet"):
-                    sig = base_signature(s[0], s[1], info2[1], info2[2], s[0])
+                    sig = base_signature(s[0], s[1], info2[1], info2[2], s[0], info2[0][3])
                     basis = s
                     break
             if sig is None:
-                if space == "P2-pipe":
-                    sig = "compose:%s|%s:%s" % (term_key(parts[0]), term_key(parts[1]), diff_kind(exp, obs))
-                    pk = base_signature(prog, None, exp, obs, prog)
-                    if pk.startswith("parse:"):
-                        sig = pk
-                elif space == "P2-context":
-                    ctxn = parts[1].replace("%s", "_").replace(" ", "")
-                    sig = base_signature(parts[0], inp, exp, obs, prog)
-                    if not sig.startswith("parse:"):
-                        sig = "in-context %s:%s" % (ctxn, sig)
-                else:
-                    sig = base_signature(prog, inp, exp, obs, prog)
+                sig = composite_signature(space, prog, inp, parts, exp, obs, m[3])
         size = len(prog) * 1000 + len(inp)
         if space == "P1":
             out.setdefault("pairsig", {})[(prog, inp)] = sig
-        ex = _example(prog, inp, info, basis[0], basis[1], sig)
+        ex = _example_full(space, parts, prog, inp, info, basis[0], basis[1], sig)
         target = out["fails"] if status == "fail" else out["undet"]
         f = target.get(sig)
         if f is None:
@@ -952,15 +1124,23 @@ def run(ctx):
     G["p1_fail"] = dict(tot["pairsig"])
     G["nocompile_terms"] = set(p for p in base_terms() if any(v[0] == "nocompile" for v in W.data.get(p, {}).values()))
     p2 = [t for t in space if t[0] not in ("P1", "matrix")]
-    per = 120
+    per = 600
     shards = [(k + 1, p2[i:i + per]) for k, i in enumerate(range(0, len(p2), per))]
     s = common.seed() % max(1, len(shards))
     shards = shards[s:] + shards[:s]
+    capped = None
     if shards:
         import multiprocessing
+        cap_s = 50 * 60 if tier == "quick" else 13 * 60
+        done = 0
         with multiprocessing.get_context("fork").Pool(nproc) as pool:
             for o in pool.imap_unordered(process_shard, shards):
                 _merge(tot, o)
+                done += 1
+                if time.time() - t0 > cap_s and done < len(shards):
+                    capped = "wall cap: %d of %d P(2) shards explored" % (done, len(shards))
+                    pool.terminate()
+                    break
     timing["p2_s"] = round(time.time() - t2, 2)
     # persist the witness answers of the quick space
     for p, d in tot["newwit"].items():
@@ -985,6 +1165,11 @@ def run(ctx):
         excl += c.get("excluded", 0)
         outside += c.get("outside", 0)
         rep.subspaces[sp].update({k: v for k, v in c.items()})
+    if capped:
+        rep.caps.append(capped)
+        for sp in ("P2-pipe", "P2-context"):
+            if sp in rep.subspaces:
+                rep.subspaces[sp]["exhaustive"] = False
     rep.distinct = tot["distinct"]
     for smp in tot["samples"]:
         rep.sample(smp)
@@ -1006,7 +1191,8 @@ def run(ctx):
     B = base_terms()
     rep.extra.update({
         "fragment": {"base_terms": len(B), "unary_contexts": len(CONTEXTS), "pipe_second_stages": len(CORE_B) if tier == "quick" else len(B),
-                     "inputs": len(INPUTS), "inputs_p2": len(QUICK_INPUTS) if tier == "quick" else len(INPUTS),
+                     "inputs": len(INPUTS), "inputs_pipes": len(QUICK_INPUTS) if tier == "quick" else len(THOROUGH_PIPE_INPUTS),
+                     "inputs_contexts": len(QUICK_CTX_INPUTS) if tier == "quick" else len(INPUTS),
                      "matrix_literals": len(LITS), "programs": len(space)},
         "pairs": {"total": judged + und + excl + outside, "judged": judged, "oracle_undetermined": und,
                   "excluded_documented_divergence": excl, "outside_fragment": outside,
@@ -1048,12 +1234,14 @@ def replay(ctx, rep):
     rep.trans(2)
     st, info = J.judge(prog, inp, r)
     if st in ("fail", "fail-undet"):
-        stb, infob = J.judge(bprog, binp, rb)
-        if (bprog, binp) != (prog, inp) and stb in ("fail", "fail-undet"):
-            sig = base_signature(bprog, binp, infob[1], infob[2], bprog)
-        else:
-            sig = case.get("signature_hint") if (bprog, binp) != (prog, inp) else base_signature(prog, inp, info[1], info[2], prog)
-            if case.get("signature_hint", "").startswith(("in-context", "compose:")):
-                sig = case["signature_hint"]
+        sig = None
+        if (bprog, binp) != (prog, inp):
+            stb, infob = J.judge(bprog, binp, rb)
+            if stb in ("fail", "fail-undet"):
+                sig = base_signature(bprog, binp, infob[1], infob[2], bprog, infob[0][3])
+        if sig is None:
+            sp = case.get("space", "P1")
+            parts = tuple(case["parts"]) if case.get("parts") else None
+            sig = composite_signature(sp, prog, inp, parts, info[1], info[2], info[0][3])
         rep.fail(sig, 0, _example(prog, inp, info, bprog, binp, sig))
     return rep.to_json()
